@@ -142,17 +142,26 @@ AuthChainOK(EM, F, P, e) == AuthChainOKWith(EM, P, LocalOK(EM, F, P), e)
 (* pm: the state provider works ("ok"), fails to list the state IDs        *)
 (* ("ids_error") or fails to return the state events ("state_error").      *)
 (***************************************************************************)
+\* "all auth events of e belong to S".  Where room IDs are create event IDs an event of another room cites, by its
+\* room ID, a create event that no state of this room contains.
+AuthEventsIn(EM, F, e, S) ==
+    EM[e].auth \subseteq S /\ ~(F[e] = "wrongroom" /\ DomainlessRoomIDs(Ver) /\ EM[e].type # "create")
+
+\* the part of the state S the auth rules read for event e (an event of the state that the rules do not read
+\* for e - somebody else's membership, say - has no say, whatever room it claims to be of)
+StateFor(EM, S, e) == {p \in S : KeyOf(EM, p) \in NeededKeys(EM, e)}
+
 AuthAtState(EM, F, e, S, av, pm) ==
     IF pm = "ids_error" THEN FALSE
-    ELSE IF av /\ EM[e].auth \subseteq S THEN TRUE
+    ELSE IF av /\ AuthEventsIn(EM, F, e, S) THEN TRUE
     ELSE IF pm = "state_error" THEN FALSE
-    ELSE Allow(EM, F, S, e)
+    ELSE Allow(EM, F, StateFor(EM, S, e), e)
 
 \* Diagnosis only (never a verdict): the answer if e were judged against those of its OWN auth events that belong
 \* to S instead of against S; lets the harness name a disagreement of that origin.
 AuthAtStateCited(EM, F, e, S, av, pm) ==
     IF pm = "ids_error" THEN FALSE
-    ELSE IF av /\ EM[e].auth \subseteq S THEN TRUE
+    ELSE IF av /\ AuthEventsIn(EM, F, e, S) THEN TRUE
     ELSE IF pm = "state_error" THEN FALSE
     ELSE Allow(EM, F, EM[e].auth \cap S, e)
 
